@@ -9,6 +9,7 @@ from __future__ import annotations
 
 import math
 import numbers
+import os
 import time as _time
 import zlib
 from fractions import Fraction
@@ -267,6 +268,9 @@ class SymInt:
         return mk_int(z3.If(self.expr >= 0, self.expr, -self.expr), _iv_abs(self.iv))
 
     def __floordiv__(self, o):
+        if isinstance(o, float) and o > 0 and o.is_integer():
+            # python: int // float -> float (integer valued)
+            return SymFloat.of(self // int(o))
         if isinstance(o, bool) or not isinstance(o, int) or o <= 0:
             raise HarnessError(f"unsupported floor division of SymInt by {o!r}")
         iv = None if self.iv is None else (self.iv[0] // o, self.iv[1] // o)
@@ -707,7 +711,7 @@ def sym_float(x=0.0):
 
 class Stats:
     FIELDS = ("paths", "decisions", "forced", "solver_checks", "solver_s", "unknown", "concretisations",
-              "pruned", "must_queries", "xval", "replayed_entries", "frames_reused")
+              "pruned", "must_queries", "xval", "replayed_entries", "frames_reused", "fallback_checks")
 
     def __init__(self):
         for f in self.FIELDS:
@@ -722,7 +726,9 @@ class Stats:
 
 
 class Engine:
-    def __init__(self, seed=0, timeout_ms=10000, verify_tags=True):
+    def __init__(self, seed=0, timeout_ms=4000, verify_tags=True, fallback_timeout_ms=60000):
+        self.fallback_timeout_ms = fallback_timeout_ms
+        self._fallback_model = None
         self.solver = z3.Solver()
         self.solver.set("timeout", timeout_ms)
         self.solver.set("random_seed", seed & 0x7FFFFFFF)
@@ -767,11 +773,28 @@ class Engine:
     def _check(self, *extra):
         t0 = _time.perf_counter()
         r = self.solver.check(*extra)
-        self.stats.solver_s += _time.perf_counter() - t0
         self.stats.solver_checks += 1
+        self._fallback_model = None
+        if r == z3.unknown:
+            # the incremental core gave up (timeout): retry once on a fresh, non-incremental solver
+            self.stats.fallback_checks += 1
+            s2 = z3.Solver()
+            s2.set("timeout", self.fallback_timeout_ms)
+            s2.add(self.solver.assertions())
+            r = s2.check(*extra)
+            if r == z3.sat:
+                self._fallback_model = s2.model()
+        self.stats.solver_s += _time.perf_counter() - t0
         if r == z3.unknown:
             self.stats.unknown += 1
+            d = os.environ.get("VERIF_DUMP_UNKNOWN")
+            if d:
+                with open(os.path.join(d, f"unknown_{os.getpid()}_{self.stats.solver_checks}.smt2"), "w") as f:
+                    f.write(self.solver.to_smt2())
         return r
+
+    def _model(self):
+        return self._fallback_model if self._fallback_model is not None else self.solver.model()
 
     def ensure_model(self):
         if self.model is None:
@@ -780,7 +803,7 @@ class Engine:
                 raise PathAbort()
             if r == z3.unknown:
                 raise Inconclusive("solver unknown (path feasibility): " + self.solver.reason_unknown())
-            self.model = self.solver.model()
+            self.model = self._model()
         return self.model
 
     def _push_entry(self, entry, expr):
